@@ -272,7 +272,13 @@ class WebSocketFrame(object):
 
     def writeData(self, socket):
 
-        socket.sendall(self.payload)
+        if self.flags.mask:
+            # a frame that announces a masking key carries its payload
+            # masked with that key (RFC 6455 section 5.3)
+            key = self.masking_key
+            socket.sendall(bytes(b ^ key[i % 4] for i, b in enumerate(self.payload)))
+        else:
+            socket.sendall(self.payload)
 
     def __repr__(self):
         opcode = self.flags.opcode.name
